@@ -289,7 +289,8 @@ class kLeastAbsErrorsCycles(walkmodel.AbstractWalkModelDiGraph):
             self.edge_indexes_basic,
             name_prefix="ee",
             lb=0,
-            ub=self.w_max,
+            # The load of an edge is the sum over the k walks of traversals times weight, each of which is at most w_max
+            ub=self.k * self.w_max,
             var_type="integer" if self.weight_type == int and self._integral_flow_values else "continuous",
         )
 
